@@ -1,84 +1,352 @@
 /* VERIF-UNIT
 {
  "name": "ea_refcount_fetch",
- "props": ["C01", "C02"],
+ "props": [
+  "C01",
+  "C02"
+ ],
  "level": "U/k",
  "tier": "wip",
  "harness": "h_ea_fetch",
- "enforce": ["ea_refcount_fetch"],
- "replace": ["refcount_collapse"],
- "includes": ["e2fsck", "lib/support"],
- "defines": ["EXT2_CUSTOM_MEMORY_ROUTINES"],
+ "enforce": [
+  "ea_refcount_fetch"
+ ],
+ "replace": [
+  "refcount_collapse"
+ ],
+ "includes": [
+  "e2fsck",
+  "lib/support"
+ ],
+ "defines": [
+  "EXT2_CUSTOM_MEMORY_ROUTINES"
+ ],
  "unwind": 10,
- "unwindset": {"get_refcount_el.0": 3, "get_refcount_el.1": 3},
- "unwind_reason": "binary search over at most 2^30 entries (int index of the real code): at most 31 probes; the 'goto retry' loop runs at most twice (a retry happens only after a collapse that made room); 10 covers the loops of the contract-instrumentation library; unwinding assertions on",
- "functions": ["e2fsck/ea_refcount.c:ea_refcount_fetch", "e2fsck/ea_refcount.c:get_refcount_el"],
- "assumes": ["count <= 2^30 entries (the real code indexes with int and computes (low+high)/2; more entries = 16 GiB of list would overflow); size <= 2^31",
-	     "well_formed (strictly ascending keys) is a universally quantified precondition; it enters as INSTANCES: at the lower bounds of the operation key and of the ghost view key and their predecessors, at the ghost index and its predecessor, at the last entry, at the cursor, and at every index probed by the binary search (ghost statement VERIF_GHOST_GET_REFCOUNT_EL_PROBE = assume of the instance at mid; sound because the list has not been written since the state the invariant speaks about); the lower bounds are arbitrary ghost values constrained only by these instances",
-	     "needs the ghost anchor of hooks-pending/ds.diff in e2fsck/ea_refcount.c"],
- "native": false
-}
-*/
-/* VERIF-UNIT
-{
- "name": "ea_refcount_increment",
- "props": ["C01", "C02"],
- "level": "U/k",
- "tier": "wip",
- "harness": "h_ea_increment",
- "enforce": ["ea_refcount_increment"],
- "replace": ["refcount_collapse"],
- "includes": ["e2fsck", "lib/support"],
- "defines": ["EXT2_CUSTOM_MEMORY_ROUTINES", "EA_SCEN_ROOM"],
- "unwind": 10,
- "unwindset": {"get_refcount_el.0": 3, "get_refcount_el.1": 3},
- "unwind_reason": "binary search over at most 2^30 entries (int index of the real code): at most 31 probes; the 'goto retry' loop runs at most twice (a retry happens only after a collapse that made room); 10 covers the loops of the contract-instrumentation library; unwinding assertions on",
- "functions": ["e2fsck/ea_refcount.c:ea_refcount_increment", "e2fsck/ea_refcount.c:insert_refcount_el", "e2fsck/ea_refcount.c:get_refcount_el"],
- "assumes": ["count <= 2^30 entries (the real code indexes with int and computes (low+high)/2; more entries = 16 GiB of list would overflow); size <= 2^31",
-	     "well_formed (strictly ascending keys) is a universally quantified precondition; it enters as INSTANCES: at the lower bounds of the operation key and of the ghost view key and their predecessors, at the ghost index and its predecessor, at the last entry, at the cursor, and at every index probed by the binary search (ghost statement VERIF_GHOST_GET_REFCOUNT_EL_PROBE = assume of the instance at mid; sound because the list has not been written since the state the invariant speaks about); the lower bounds are arbitrary ghost values constrained only by these instances",
-	     "needs the ghost anchor of hooks-pending/ds.diff in e2fsck/ea_refcount.c"],
+ "unwindset": {
+  "get_refcount_el.0": 3,
+  "get_refcount_el.1": 1
+ },
+ "unwind_reason": "binary search closed by its invariant (ghost statements, see ea_common.h): two arrivals at the loop head; create == 0: the 'goto retry' back edge is never taken; 10 covers the loops of the contract-instrumentation library",
+ "functions": [
+  "e2fsck/ea_refcount.c:ea_refcount_fetch",
+  "e2fsck/ea_refcount.c:get_refcount_el"
+ ],
+ "assumes": [
+  "count <= 2^30 entries (the real code indexes with int and computes (low+high)/2; more entries = 16 GiB of list would overflow); size <= 2^31",
+  "well_formed (strictly ascending keys) is a universally quantified precondition; it enters as INSTANCES: at the lower bounds of the operation key and of the ghost view key and their predecessors, at the ghost index and its predecessor, at the last entry, at the cursor, and at every index probed by the binary search (ghost statement VERIF_GHOST_GET_REFCOUNT_EL_PROBE = assume of the instance at mid; sound because the list has not been written since the state the invariant speaks about); the lower bounds are arbitrary ghost values constrained only by these instances",
+  "needs the ghost anchor of hooks-pending/ds.diff in e2fsck/ea_refcount.c"
+ ],
  "native": false
 }
 */
 /* VERIF-UNIT
 {
  "name": "ea_refcount_decrement",
- "props": ["C01", "C02"],
+ "props": [
+  "C01",
+  "C02"
+ ],
  "level": "U/k",
  "tier": "wip",
  "harness": "h_ea_decrement",
- "enforce": ["ea_refcount_decrement"],
- "replace": ["refcount_collapse"],
- "includes": ["e2fsck", "lib/support"],
- "defines": ["EXT2_CUSTOM_MEMORY_ROUTINES"],
+ "enforce": [
+  "ea_refcount_decrement"
+ ],
+ "replace": [
+  "refcount_collapse"
+ ],
+ "includes": [
+  "e2fsck",
+  "lib/support"
+ ],
+ "defines": [
+  "EXT2_CUSTOM_MEMORY_ROUTINES"
+ ],
  "unwind": 10,
- "unwindset": {"get_refcount_el.0": 3, "get_refcount_el.1": 3},
- "unwind_reason": "binary search over at most 2^30 entries (int index of the real code): at most 31 probes; the 'goto retry' loop runs at most twice (a retry happens only after a collapse that made room); 10 covers the loops of the contract-instrumentation library; unwinding assertions on",
- "functions": ["e2fsck/ea_refcount.c:ea_refcount_decrement", "e2fsck/ea_refcount.c:insert_refcount_el", "e2fsck/ea_refcount.c:get_refcount_el"],
- "assumes": ["count <= 2^30 entries (the real code indexes with int and computes (low+high)/2; more entries = 16 GiB of list would overflow); size <= 2^31",
-	     "well_formed (strictly ascending keys) is a universally quantified precondition; it enters as INSTANCES: at the lower bounds of the operation key and of the ghost view key and their predecessors, at the ghost index and its predecessor, at the last entry, at the cursor, and at every index probed by the binary search (ghost statement VERIF_GHOST_GET_REFCOUNT_EL_PROBE = assume of the instance at mid; sound because the list has not been written since the state the invariant speaks about); the lower bounds are arbitrary ghost values constrained only by these instances",
-	     "needs the ghost anchor of hooks-pending/ds.diff in e2fsck/ea_refcount.c"],
+ "unwindset": {
+  "get_refcount_el.0": 3,
+  "get_refcount_el.1": 1
+ },
+ "unwind_reason": "binary search closed by its invariant (ghost statements, see ea_common.h): two arrivals at the loop head; create == 0: the 'goto retry' back edge is never taken; 10 covers the loops of the contract-instrumentation library",
+ "functions": [
+  "e2fsck/ea_refcount.c:ea_refcount_decrement",
+  "e2fsck/ea_refcount.c:get_refcount_el"
+ ],
+ "assumes": [
+  "count <= 2^30 entries (the real code indexes with int and computes (low+high)/2; more entries = 16 GiB of list would overflow); size <= 2^31",
+  "well_formed (strictly ascending keys) is a universally quantified precondition; it enters as INSTANCES: at the lower bounds of the operation key and of the ghost view key and their predecessors, at the ghost index and its predecessor, at the last entry, at the cursor, and at every index probed by the binary search (ghost statement VERIF_GHOST_GET_REFCOUNT_EL_PROBE = assume of the instance at mid; sound because the list has not been written since the state the invariant speaks about); the lower bounds are arbitrary ghost values constrained only by these instances",
+  "needs the ghost anchor of hooks-pending/ds.diff in e2fsck/ea_refcount.c"
+ ],
  "native": false
 }
 */
 /* VERIF-UNIT
 {
- "name": "ea_refcount_store",
- "props": ["C01", "C02"],
+ "name": "ea_refcount_increment_room",
+ "props": [
+  "C01",
+  "C02"
+ ],
+ "level": "U/k",
+ "tier": "wip",
+ "harness": "h_ea_increment",
+ "enforce": [
+  "ea_refcount_increment"
+ ],
+ "replace": [
+  "refcount_collapse"
+ ],
+ "includes": [
+  "e2fsck",
+  "lib/support"
+ ],
+ "defines": [
+  "EXT2_CUSTOM_MEMORY_ROUTINES",
+  "EA_SCEN_ROOM"
+ ],
+ "unwind": 10,
+ "unwindset": {
+  "get_refcount_el.0": 3,
+  "get_refcount_el.1": 1
+ },
+ "unwind_reason": "binary search closed by its invariant (ghost statements, see ea_common.h): two arrivals at the loop head; scenario count < size: the 'goto retry' back edge is never taken (unwinding assertion); 10 covers the loops of the contract-instrumentation library",
+ "functions": [
+  "e2fsck/ea_refcount.c:ea_refcount_increment",
+  "e2fsck/ea_refcount.c:get_refcount_el",
+  "e2fsck/ea_refcount.c:insert_refcount_el"
+ ],
+ "assumes": [
+  "count <= 2^30 entries (the real code indexes with int and computes (low+high)/2; more entries = 16 GiB of list would overflow); size <= 2^31",
+  "well_formed (strictly ascending keys) is a universally quantified precondition; it enters as INSTANCES: at the lower bounds of the operation key and of the ghost view key and their predecessors, at the ghost index and its predecessor, at the last entry, at the cursor, and at every index probed by the binary search (ghost statement VERIF_GHOST_GET_REFCOUNT_EL_PROBE = assume of the instance at mid; sound because the list has not been written since the state the invariant speaks about); the lower bounds are arbitrary ghost values constrained only by these instances",
+  "needs the ghost anchor of hooks-pending/ds.diff in e2fsck/ea_refcount.c",
+  "scenario 'room': count < size on entry (refcount_collapse and the resize are then unreachable: obligations 'never called'); the scenario count == size is unit ea_refcount_increment_shrink / ea_refcount_increment_grow",
+  "memmove of the list by a ghost-index specification (C standard semantics at the ghost index, rest of the object havocked)"
+ ],
+ "native": false
+}
+*/
+/* VERIF-UNIT
+{
+ "name": "ea_refcount_increment_shrink",
+ "props": [
+  "C01",
+  "C02"
+ ],
+ "level": "U/k",
+ "tier": "wip",
+ "harness": "h_ea_increment",
+ "enforce": [
+  "ea_refcount_increment"
+ ],
+ "replace": [
+  "refcount_collapse"
+ ],
+ "includes": [
+  "e2fsck",
+  "lib/support"
+ ],
+ "defines": [
+  "EXT2_CUSTOM_MEMORY_ROUTINES",
+  "EA_SCEN_SHRINK"
+ ],
+ "unwind": 10,
+ "unwindset": {
+  "get_refcount_el.0": 3,
+  "get_refcount_el.1": 3
+ },
+ "unwind_reason": "binary search closed by its invariant (ghost statements, see ea_common.h): two arrivals at the loop head per search; the 'goto retry' loop runs at most twice (one retry after the one collapse); 10 covers the loops of the contract-instrumentation library",
+ "functions": [
+  "e2fsck/ea_refcount.c:ea_refcount_increment",
+  "e2fsck/ea_refcount.c:get_refcount_el",
+  "e2fsck/ea_refcount.c:insert_refcount_el"
+ ],
+ "assumes": [
+  "count <= 2^30 entries (the real code indexes with int and computes (low+high)/2; more entries = 16 GiB of list would overflow); size <= 2^31",
+  "well_formed (strictly ascending keys) is a universally quantified precondition; it enters as INSTANCES: at the lower bounds of the operation key and of the ghost view key and their predecessors, at the ghost index and its predecessor, at the last entry, at the cursor, and at every index probed by the binary search (ghost statement VERIF_GHOST_GET_REFCOUNT_EL_PROBE = assume of the instance at mid; sound because the list has not been written since the state the invariant speaks about); the lower bounds are arbitrary ghost values constrained only by these instances",
+  "needs the ghost anchor of hooks-pending/ds.diff in e2fsck/ea_refcount.c",
+  "realloc / memmove of the list by ghost-index specifications (C standard semantics at the ghost index, rest of the object havocked)",
+  "scenario 'shrink': count == size on entry and refcount_collapse (replaced by its contract: well-formed result, same views, lower bounds reported in ghosts; proved for lists of up to 4 entries by ea_collapse_B4) drops at least one entry; the complementary outcome is unit ea_refcount_increment_grow; the resize is then unreachable (obligation)"
+ ],
+ "native": false
+}
+*/
+/* VERIF-UNIT
+{
+ "name": "ea_refcount_increment_grow",
+ "props": [
+  "C01",
+  "C02"
+ ],
+ "level": "U/k",
+ "tier": "wip",
+ "harness": "h_ea_increment",
+ "enforce": [
+  "ea_refcount_increment"
+ ],
+ "replace": [
+  "refcount_collapse"
+ ],
+ "includes": [
+  "e2fsck",
+  "lib/support"
+ ],
+ "defines": [
+  "EXT2_CUSTOM_MEMORY_ROUTINES",
+  "EA_SCEN_GROW"
+ ],
+ "unwind": 10,
+ "unwindset": {
+  "get_refcount_el.0": 3,
+  "get_refcount_el.1": 1
+ },
+ "unwind_reason": "binary search closed by its invariant (ghost statements, see ea_common.h): two arrivals at the loop head; no retry in this scenario (unwinding assertion); 10 covers the loops of the contract-instrumentation library",
+ "functions": [
+  "e2fsck/ea_refcount.c:ea_refcount_increment",
+  "e2fsck/ea_refcount.c:get_refcount_el",
+  "e2fsck/ea_refcount.c:insert_refcount_el"
+ ],
+ "assumes": [
+  "count <= 2^30 entries (the real code indexes with int and computes (low+high)/2; more entries = 16 GiB of list would overflow); size <= 2^31",
+  "well_formed (strictly ascending keys) is a universally quantified precondition; it enters as INSTANCES: at the lower bounds of the operation key and of the ghost view key and their predecessors, at the ghost index and its predecessor, at the last entry, at the cursor, and at every index probed by the binary search (ghost statement VERIF_GHOST_GET_REFCOUNT_EL_PROBE = assume of the instance at mid; sound because the list has not been written since the state the invariant speaks about); the lower bounds are arbitrary ghost values constrained only by these instances",
+  "needs the ghost anchor of hooks-pending/ds.diff in e2fsck/ea_refcount.c",
+  "realloc / memmove of the list by ghost-index specifications (C standard semantics at the ghost index, rest of the object havocked)",
+  "scenario 'grow': count == size on entry and refcount_collapse (replaced by its contract, see ea_collapse_B4) drops nothing; the complementary outcome is unit ea_refcount_increment_shrink; the 'goto retry' back edge is then never taken (unwinding assertion)"
+ ],
+ "native": false
+}
+*/
+/* VERIF-UNIT
+{
+ "name": "ea_refcount_store_room",
+ "props": [
+  "C01",
+  "C02"
+ ],
  "level": "U/k",
  "tier": "wip",
  "harness": "h_ea_store",
- "enforce": ["ea_refcount_store"],
- "replace": ["refcount_collapse"],
- "includes": ["e2fsck", "lib/support"],
- "defines": ["EXT2_CUSTOM_MEMORY_ROUTINES"],
+ "enforce": [
+  "ea_refcount_store"
+ ],
+ "replace": [
+  "refcount_collapse"
+ ],
+ "includes": [
+  "e2fsck",
+  "lib/support"
+ ],
+ "defines": [
+  "EXT2_CUSTOM_MEMORY_ROUTINES",
+  "EA_SCEN_ROOM"
+ ],
  "unwind": 10,
- "unwindset": {"get_refcount_el.0": 3, "get_refcount_el.1": 3},
- "unwind_reason": "binary search over at most 2^30 entries (int index of the real code): at most 31 probes; the 'goto retry' loop runs at most twice (a retry happens only after a collapse that made room); 10 covers the loops of the contract-instrumentation library; unwinding assertions on",
- "functions": ["e2fsck/ea_refcount.c:ea_refcount_store", "e2fsck/ea_refcount.c:insert_refcount_el", "e2fsck/ea_refcount.c:get_refcount_el"],
- "assumes": ["count <= 2^30 entries (the real code indexes with int and computes (low+high)/2; more entries = 16 GiB of list would overflow); size <= 2^31",
-	     "well_formed (strictly ascending keys) is a universally quantified precondition; it enters as INSTANCES: at the lower bounds of the operation key and of the ghost view key and their predecessors, at the ghost index and its predecessor, at the last entry, at the cursor, and at every index probed by the binary search (ghost statement VERIF_GHOST_GET_REFCOUNT_EL_PROBE = assume of the instance at mid; sound because the list has not been written since the state the invariant speaks about); the lower bounds are arbitrary ghost values constrained only by these instances",
-	     "needs the ghost anchor of hooks-pending/ds.diff in e2fsck/ea_refcount.c"],
+ "unwindset": {
+  "get_refcount_el.0": 3,
+  "get_refcount_el.1": 1
+ },
+ "unwind_reason": "binary search closed by its invariant (ghost statements, see ea_common.h): two arrivals at the loop head; scenario count < size: the 'goto retry' back edge is never taken (unwinding assertion); 10 covers the loops of the contract-instrumentation library",
+ "functions": [
+  "e2fsck/ea_refcount.c:ea_refcount_store",
+  "e2fsck/ea_refcount.c:get_refcount_el",
+  "e2fsck/ea_refcount.c:insert_refcount_el"
+ ],
+ "assumes": [
+  "count <= 2^30 entries (the real code indexes with int and computes (low+high)/2; more entries = 16 GiB of list would overflow); size <= 2^31",
+  "well_formed (strictly ascending keys) is a universally quantified precondition; it enters as INSTANCES: at the lower bounds of the operation key and of the ghost view key and their predecessors, at the ghost index and its predecessor, at the last entry, at the cursor, and at every index probed by the binary search (ghost statement VERIF_GHOST_GET_REFCOUNT_EL_PROBE = assume of the instance at mid; sound because the list has not been written since the state the invariant speaks about); the lower bounds are arbitrary ghost values constrained only by these instances",
+  "needs the ghost anchor of hooks-pending/ds.diff in e2fsck/ea_refcount.c",
+  "scenario 'room': count < size on entry (refcount_collapse and the resize are then unreachable: obligations 'never called'); the scenario count == size is unit ea_refcount_store_shrink / ea_refcount_store_grow",
+  "memmove of the list by a ghost-index specification (C standard semantics at the ghost index, rest of the object havocked)"
+ ],
+ "native": false
+}
+*/
+/* VERIF-UNIT
+{
+ "name": "ea_refcount_store_shrink",
+ "props": [
+  "C01",
+  "C02"
+ ],
+ "level": "U/k",
+ "tier": "wip",
+ "harness": "h_ea_store",
+ "enforce": [
+  "ea_refcount_store"
+ ],
+ "replace": [
+  "refcount_collapse"
+ ],
+ "includes": [
+  "e2fsck",
+  "lib/support"
+ ],
+ "defines": [
+  "EXT2_CUSTOM_MEMORY_ROUTINES",
+  "EA_SCEN_SHRINK"
+ ],
+ "unwind": 10,
+ "unwindset": {
+  "get_refcount_el.0": 3,
+  "get_refcount_el.1": 3
+ },
+ "unwind_reason": "binary search closed by its invariant (ghost statements, see ea_common.h): two arrivals at the loop head per search; the 'goto retry' loop runs at most twice (one retry after the one collapse); 10 covers the loops of the contract-instrumentation library",
+ "functions": [
+  "e2fsck/ea_refcount.c:ea_refcount_store",
+  "e2fsck/ea_refcount.c:get_refcount_el",
+  "e2fsck/ea_refcount.c:insert_refcount_el"
+ ],
+ "assumes": [
+  "count <= 2^30 entries (the real code indexes with int and computes (low+high)/2; more entries = 16 GiB of list would overflow); size <= 2^31",
+  "well_formed (strictly ascending keys) is a universally quantified precondition; it enters as INSTANCES: at the lower bounds of the operation key and of the ghost view key and their predecessors, at the ghost index and its predecessor, at the last entry, at the cursor, and at every index probed by the binary search (ghost statement VERIF_GHOST_GET_REFCOUNT_EL_PROBE = assume of the instance at mid; sound because the list has not been written since the state the invariant speaks about); the lower bounds are arbitrary ghost values constrained only by these instances",
+  "needs the ghost anchor of hooks-pending/ds.diff in e2fsck/ea_refcount.c",
+  "realloc / memmove of the list by ghost-index specifications (C standard semantics at the ghost index, rest of the object havocked)",
+  "scenario 'shrink': count == size on entry and refcount_collapse (replaced by its contract: well-formed result, same views, lower bounds reported in ghosts; proved for lists of up to 4 entries by ea_collapse_B4) drops at least one entry; the complementary outcome is unit ea_refcount_store_grow; the resize is then unreachable (obligation)"
+ ],
+ "native": false
+}
+*/
+/* VERIF-UNIT
+{
+ "name": "ea_refcount_store_grow",
+ "props": [
+  "C01",
+  "C02"
+ ],
+ "level": "U/k",
+ "tier": "wip",
+ "harness": "h_ea_store",
+ "enforce": [
+  "ea_refcount_store"
+ ],
+ "replace": [
+  "refcount_collapse"
+ ],
+ "includes": [
+  "e2fsck",
+  "lib/support"
+ ],
+ "defines": [
+  "EXT2_CUSTOM_MEMORY_ROUTINES",
+  "EA_SCEN_GROW"
+ ],
+ "unwind": 10,
+ "unwindset": {
+  "get_refcount_el.0": 3,
+  "get_refcount_el.1": 1
+ },
+ "unwind_reason": "binary search closed by its invariant (ghost statements, see ea_common.h): two arrivals at the loop head; no retry in this scenario (unwinding assertion); 10 covers the loops of the contract-instrumentation library",
+ "functions": [
+  "e2fsck/ea_refcount.c:ea_refcount_store",
+  "e2fsck/ea_refcount.c:get_refcount_el",
+  "e2fsck/ea_refcount.c:insert_refcount_el"
+ ],
+ "assumes": [
+  "count <= 2^30 entries (the real code indexes with int and computes (low+high)/2; more entries = 16 GiB of list would overflow); size <= 2^31",
+  "well_formed (strictly ascending keys) is a universally quantified precondition; it enters as INSTANCES: at the lower bounds of the operation key and of the ghost view key and their predecessors, at the ghost index and its predecessor, at the last entry, at the cursor, and at every index probed by the binary search (ghost statement VERIF_GHOST_GET_REFCOUNT_EL_PROBE = assume of the instance at mid; sound because the list has not been written since the state the invariant speaks about); the lower bounds are arbitrary ghost values constrained only by these instances",
+  "needs the ghost anchor of hooks-pending/ds.diff in e2fsck/ea_refcount.c",
+  "realloc / memmove of the list by ghost-index specifications (C standard semantics at the ghost index, rest of the object havocked)",
+  "scenario 'grow': count == size on entry and refcount_collapse (replaced by its contract, see ea_collapse_B4) drops nothing; the complementary outcome is unit ea_refcount_store_shrink; the 'goto retry' back edge is then never taken (unwinding assertion)"
+ ],
  "native": false
 }
 */
@@ -97,35 +365,32 @@ errcode_t ea_refcount_fetch(ext2_refcount_t refcount, ea_key_t ea_key, ea_value_
 	REQUIRES(EA_PRE(refcount, ea_key))
 	ASSIGNS(*ret, EA_MUTABLE(refcount))
 	ENSURES(RET == 0)
-	ENSURES(EA_POST_WF(refcount) && !EA_ADDED(refcount))
-	ENSURES(EA_VIEW(refcount, ea_gK, EA_QK(refcount)) == ea_gV)
+	ENSURES(EA_SAMECOUNT(refcount) && EA_POST_OK(refcount, EA_QK(refcount), ea_gV))
 	ENSURES(ea_gK == ea_gA ==> *ret == ea_gV);
 
 errcode_t ea_refcount_increment(ext2_refcount_t refcount, ea_key_t ea_key, ea_value_t *ret)
 	REQUIRES(EA_PRE(refcount, ea_key) && refcount->count < EA_CAP)
 	ASSIGNS(ret != 0: *ret; EA_MUTABLE(refcount))
 	ENSURES(RET == 0 || RET == EXT2_ET_NO_MEMORY)
-	ENSURES(EA_POST_WF(refcount))
-	ENSURES(RET != 0 ==> !EA_ADDED(refcount))
-	ENSURES(EA_VIEW(refcount, ea_gK, EA_QK(refcount)) == ea_gV + ((RET == 0 && ea_gK == ea_gA) ? 1 : 0))
+	ENSURES(RET == 0 ? (EA_SAMECOUNT(refcount) || EA_ADDED(refcount)) : EA_SAMECOUNT(refcount))
+	ENSURES(EA_POST_OK(refcount, EA_QK(refcount), ea_gV + ((RET == 0 && ea_gK == ea_gA) ? 1 : 0)))
 	ENSURES((RET == 0 && ret != 0 && ea_gK == ea_gA) ==> *ret == ea_gV + 1);
 
 errcode_t ea_refcount_decrement(ext2_refcount_t refcount, ea_key_t ea_key, ea_value_t *ret)
 	REQUIRES(EA_PRE(refcount, ea_key))
 	ASSIGNS(ret != 0: *ret; EA_MUTABLE(refcount))
 	ENSURES(RET == 0 || RET == EXT2_ET_INVALID_ARGUMENT)
-	ENSURES(EA_POST_WF(refcount) && !EA_ADDED(refcount))
+	ENSURES(EA_SAMECOUNT(refcount))
 	ENSURES(ea_gK == ea_gA ==> ((RET != 0) == (ea_gV == 0)))
-	ENSURES(EA_VIEW(refcount, ea_gK, EA_QK(refcount)) == ea_gV - ((RET == 0 && ea_gK == ea_gA) ? 1 : 0))
+	ENSURES(EA_POST_OK(refcount, EA_QK(refcount), ea_gV - ((RET == 0 && ea_gK == ea_gA) ? 1 : 0)))
 	ENSURES((RET == 0 && ret != 0 && ea_gK == ea_gA) ==> *ret == ea_gV - 1);
 
 errcode_t ea_refcount_store(ext2_refcount_t refcount, ea_key_t ea_key, ea_value_t ea_value)
 	REQUIRES(EA_PRE(refcount, ea_key) && refcount->count < EA_CAP)
 	ASSIGNS(EA_MUTABLE(refcount))
 	ENSURES(RET == 0 || (RET == EXT2_ET_NO_MEMORY && ea_value != 0))
-	ENSURES(EA_POST_WF(refcount))
-	ENSURES((RET != 0 || ea_value == 0) ==> !EA_ADDED(refcount))
-	ENSURES(EA_VIEW(refcount, ea_gK, EA_QK(refcount)) == ((RET == 0 && ea_gK == ea_gA) ? ea_value : ea_gV));
+	ENSURES((RET == 0 && ea_value != 0) ? (EA_SAMECOUNT(refcount) || EA_ADDED(refcount)) : EA_SAMECOUNT(refcount))
+	ENSURES(EA_POST_OK(refcount, EA_QK(refcount), (RET == 0 && ea_gK == ea_gA) ? ea_value : ea_gV));
 
 
 static void build(void)
@@ -171,14 +436,14 @@ void h_ea_increment(void)
 	ASSUME(IN.count == IN.size);
 #endif
 	ea_refcount_increment(&RC, IN.a, IN.retnull ? (ea_value_t *) 0 : &out);
-	if (IN.count > 2 && IN.count < IN.size && IN.pa > 0 && IN.pa < IN.count && IN.k > IN.a)
-		REACH("room: insert or hit in the middle");
-	if (IN.count == IN.size && IN.pa == IN.count)
-		REACH("full: append");
-	if (IN.count == IN.size && IN.pa < IN.count)
-		REACH("full: middle");
+	if (IN.count > 2 && IN.pa > 0 && IN.pa < IN.count && IN.k > IN.a)
+		REACH("insert or hit in the middle");
+	if (IN.pa == IN.count)
+		REACH("append");
+#ifdef EA_SCEN_ROOM
 	if (IN.count == 0)
 		REACH("empty");
+#endif
 	REACH("end");
 }
 
@@ -198,11 +463,16 @@ void h_ea_decrement(void)
 void h_ea_store(void)
 {
 	build();
+#ifdef EA_SCEN_ROOM
+	ASSUME(IN.count < IN.size);
+#else
+	ASSUME(IN.count == IN.size);
+#endif
 	ea_refcount_store(&RC, IN.a, IN.v);
-	if (IN.count > 2 && IN.count < IN.size && IN.pa > 0 && IN.pa < IN.count && IN.k > IN.a && IN.v != 0)
-		REACH("room: insert or hit in the middle");
-	if (IN.count == IN.size && IN.v != 0)
-		REACH("full");
+	if (IN.count > 2 && IN.pa > 0 && IN.pa < IN.count && IN.k > IN.a && IN.v != 0)
+		REACH("insert or hit in the middle");
+	if (IN.pa == IN.count && IN.v != 0)
+		REACH("append");
 	if (IN.v == 0)
 		REACH("store zero");
 	REACH("end");
